@@ -25,7 +25,12 @@ for l in sys.stdin:
         else: P+=1; names.append('P:'+v['obligation'].split('.')[-1][:70]+('' if v.get('input_found') else ' (no input)'))
     elif l.strip() and not l.startswith('KNOWN-FINDING'):
         other.append(l.strip()[:160])
-print(f'P={P} F={F} B={B} ::', ' | '.join(names[:6]), ' || '.join(other[:2]))
+try:
+    ev=json.load(open('/verif/evidence/$p.json'))['coverage']
+    st=f\"Pproved={ev.get('p_discharged')}/{ev.get('p_obligations')} undecided={len(ev.get('undecided',[]))} out_of_reach={[o['function'].split('.')[-1] for o in ev.get('out_of_reach',[])]}\"
+except Exception as e:
+    st='(no evidence)'
+print(f'P={P} F={F} B={B} {st} ::', ' | '.join(names[:6]), ' || '.join(other[:2]))
 ")
   echo "[$id] $p exit=$rc $summary"
 done
